@@ -1,4 +1,5 @@
 import DynetxProofs.Lemmas.HistoryMore
+import DynetxProofs.Lemmas.CountsHistory
 /-
   THE PROPERTY THEOREMS.  Only statements about the model that correspond to the clauses of
   /verif/properties.jsonl live here; every helper lemma is in DynetxProofs/Lemmas.
@@ -102,6 +103,60 @@ theorem C03_history (d : Bool) (ops : List Op) (u v : Node) (tl : List Span)
       unfold Graph.timeline
       rw [← findEdge_swap_undirected g hdg u v, hf]
       rfl
+
+/-! ## C04 — snapshot ids are the inhabited instants; per-snapshot counts are exact -/
+
+/-- C04 (ids): `temporal_snapshots_ids()` is strictly increasing (ascending, duplicate-free) and contains
+    exactly the instants at which some interaction is present. -/
+theorem C04_ids (d : Bool) (ops : List Op) :
+    let g := ((Graph.empty d true).run ops).1
+    g.ids.Pairwise (fun a b => a < b) ∧ ∀ x, x ∈ g.ids ↔ ∃ a b, g.hasInteraction a b (some x) = true := by
+  intro g
+  have r := run_ok (Graph.empty d true) (WF.empty d true) rfl ops
+  have si := run_snapInv (Graph.empty d true) (WF.empty d true) rfl (SnapInv.empty d true) ops
+  exact ⟨ids_strictly_increasing si, fun x => mem_ids_iff r.wf r.removal si x⟩
+
+/-- C04 (counts): the stored counter of every instant `x` — `interactions_per_snapshots(x)` is half of it,
+    0 when `x` is no key — is twice the number of stored pairs present at `x`; stored pairs are pairwise
+    distinct interactions (`WF.keys`) and a stored pair is counted iff `has_interaction` reports it. -/
+theorem C04_counts (d : Bool) (ops : List Op) (x : Int) :
+    let g := ((Graph.empty d true).run ops).1
+    g.ips2 x = 2 * (g.edges.filter (fun e => g.hasInteraction e.u e.v (some x))).length ∧
+    g.edges.Pairwise (fun e f => sameKey g.directed e.u e.v f.u f.v = false) ∧
+    (∀ a b, g.hasInteraction a b (some x) = true → ∃ e ∈ g.edges, sameKey g.directed e.u e.v a b = true) := by
+  intro g
+  have r := run_ok (Graph.empty d true) (WF.empty d true) rfl ops
+  have si := run_snapInv (Graph.empty d true) (WF.empty d true) rfl (SnapInv.empty d true) ops
+  refine ⟨?_, r.wf.keys, ?_⟩
+  · show lookupSnap g.snaps x = _
+    rw [si.count x]
+    unfold Graph.countAt
+    rw [List.countP_eq_length_filter]
+    congr 2
+    apply List.filter_congr
+    intro e he
+    have := r.wf.present_edge_iff r.removal he x
+    show presentTl e.tl x = g.hasInteraction e.u e.v (some x)
+    cases h1 : presentTl e.tl x with
+    | true => exact (this.mp h1).symm
+    | false =>
+      cases h2 : g.hasInteraction e.u e.v (some x) with
+      | false => rfl
+      | true => rw [this.mpr h2] at h1; cases h1
+  · intro a b hab
+    obtain ⟨e, he, hk, _⟩ := (r.wf.hasInteraction_iff r.removal a b x).mp hab
+    exact ⟨e, he, hk⟩
+
+/-- C04 (dictionary form and mean): the keys of `interactions_per_snapshots()` are the snapshot ids, and
+    `avg_number_of_nodes()` is the sum of `number_of_nodes(t)` over the ids divided by their number. -/
+theorem C04_avg (d : Bool) (ops : List Op) :
+    let g := ((Graph.empty d true).run ops).1
+    (∀ x, x ∈ g.snaps.map (·.1) ↔ x ∈ g.ids) ∧
+    g.avgNumberOfNodes = ((g.ids.map (fun t => g.numberOfNodes (some t))).foldl (· + ·) 0, g.ids.length) := by
+  intro g
+  refine ⟨fun x => by rw [ids_eq_sorted, (C18_sorted_perm _).mem_iff], ?_⟩
+  unfold Graph.avgNumberOfNodes
+  rw [ids_length]
 
 /-! ## C07 — a rejected update leaves no trace -/
 
